@@ -178,7 +178,10 @@ CHECKS = {
             "truncated - and the generic theorems C07_pair / C07_pair_ops compose any two of them, with any sequence of operations in "
             "between, into the property's conversion statement; the library's destination BYTES are compared with the composed model "
             "for all 25 pairs (two restricted with the stated reason: STL sources carry reader-set cue settings / language that the "
-            "WebVTT / TTML writers emit) with and without operations, and every reader's cues with the model's. The 7x6 conversion matrix is decided on "
+            "WebVTT / TTML writers emit) with and without operations, and every reader's cues with the model's. The command-line tool "
+            "(Model/Cli.v: the flag validation of astisub/main.go and the one operation each sub-command applies) composes the same way "
+            "(C07_cli), and the CLI binary's output bytes - or its refusal for invalid flags - are compared with the model for every "
+            "sub-command and codec pair. The 7x6 conversion matrix is decided on "
             "the implementation: sources rendered by the harness's own encoders (SubRip renderer, minimal WebVTT/SSA/TTML renderers, an "
             "EBU STL encoder for display standards 0/1/2, a teletext-in-TS encoder through the astits muxer) from ground-truth cue lists, "
             "0..4 operations with random parameters through the library and one through the built CLI binary, the destination re-read and "
@@ -189,7 +192,7 @@ CHECKS = {
             "Rocq proof of the dispatch model, of every codec pair through the plain view with operation sequences in between, and of the styled SubRip/WebVTT conversions + byte-level correspondence of the composed models + conversion matrix through file API and CLI on the implementation",
             "partial: for styled cues the pairwise theorems exist for the SubRip/WebVTT pairs only (what crosses between other formats "
             "for styled cues - attribute propagation, inherited metadata - is decided by the matrix oracle on the implementation); "
-            "teletext sources and the CLI are decided on the implementation; the "
+            "teletext sources are decided on the implementation; the "
             "operation-sequence theorems go through Kit/Float64.v (linear correction), hence the standard-library Reals axioms that Flocq "
             "brings in (listed in the evidence); the content tag of Model/ConvOps.v (source index carried in the style-pointer field, which "
             "the SubRip/WebVTT readers never set) is a modelling device checked by the byte comparison; coloured "
